@@ -16,6 +16,7 @@ import StepModel.ComplexMarks10
 import StepModel.ComplexComplete9
 import StepModel.ComplexBuildDistinct
 import StepModel.ComplexReset
+import StepModel.ComplexCombo
 /-!
 # C08 — complex instances are accepted exactly when the supertype constraints allow them
 
@@ -211,6 +212,28 @@ theorem C08_supports_answers (c : Collect) (mult parts : List Name) (hc : ∀ h 
   | ok b => exact ⟨b, rfl⟩
   | crash k => exact absurd h (h2 k)
   | outOfFuel => exact absurd h h1
+
+/-- **`supports` answers on every request, members with several supertypes included — no hypothesis about the joined
+list.**  The list `supports` joins for such members consists of the children of lists of the collect with pairwise
+different supertypes (`joinLists_heads`: the `toplevel` test), so its number of choice combinations is at most the product
+over the collect and its size at most the sum; hence whenever that product is ≤ 4096 the model answers `true` or `false`
+on every request whose multiply-inheriting members occur in some list. -/
+theorem C08_supports_answers_all (c : Collect) (mult parts : List Name) (hc : ∀ h ∈ c, headWF h = true)
+    (hcov : ∀ n ∈ parts, n ∈ mult → ∃ h ∈ c, n ∈ leaves h)
+    (hsm : ∀ h ∈ c, smallOrT h) (hcap : capTL c ≤ 4096) : ∃ b, supports c mult parts = .ok b := by
+  have h1 := supports_fuel_total c mult parts hc hsm hcap
+  have h2 := C08_no_crash c mult parts hc hcov
+  cases h : supports c mult parts with
+  | ok b => exact ⟨b, rfl⟩
+  | crash k => exact absurd h (h2 k)
+  | outOfFuel => exact absurd h h1
+
+/-- satisfiable: the diamond example with its multiply-inheriting member -/
+example : ∃ b, supports exDiamondTree' [3] [0, 1, 3] = .ok b :=
+  C08_supports_answers_all _ _ _ (by decide) (by decide)
+    (by intro h hh; simp only [exDiamondTree', List.mem_singleton] at hh; subst hh
+        simp only [smallOrT, smallOrTL, and_true, List.length_cons, List.length_nil]; decide)
+    (by decide)
 
 /-- the hypotheses are satisfiable: `a SUPERTYPE OF (ONEOF(b, c) ANDOR d)` -/
 example : ∀ parts, ∃ b, supports [.and [.simple 0, .andor [.or [.simple 1, .simple 2], .simple 3]]] [] parts = .ok b :=
